@@ -121,7 +121,7 @@ def replay (seq : String) (cur : LockerAccrual.St) (ctx : Ctx) (op : Op) (pow : 
             [s!"DIFF\t{seq}\tpow exponent (accrued interval): model={secs} s\timpl bits={yb}"]))
       | _, _ => (none, [])
     let m := step cur ctx op pw
-    -- deposit / withdraw are also accepted in their repaired form (D35, notes/C18.md): a repaired tree checks clean
+    -- deposit / withdraw are also accepted in their repaired form (D45, notes/C18.md): a repaired tree checks clean
     let mf := stepFix cur ctx op pw
     let m := if (outcomeOf m != o || m.getD cur != real) && outcomeOf mf = o && mf.getD cur = real then mf else m
     let ms := m.getD cur
